@@ -119,6 +119,19 @@ CLAIMED = {
         note="PART: the for-all-u statement for products needs polynomial root counting (not formalised); rational operands "
              "and @ are decided by the oracle only (no executable model). Known findings: K3 (A/B when a refined control "
              "value of B vanishes), K4 (numpy array on the left of a curve)."),
+    "C09": dict(
+        text="Decided per generated case inside Coq from the implementation's output: for polynomial curves, on every span of "
+             "the merged knots and at deg+2 interior points x, int_a^x D du (open Newton-Cotes of sufficient order, proved exact "
+             "on the polynomial pieces in C10) equals C(x) - C(a) - which forces D = C' on the span (a polynomial of degree <= m "
+             "with m+1 roots); degree 0 gives the zero curve; for rational curves D W^2 = N' W - N W' at 4p+3 points per span with "
+             "N', W' the exact model derivatives (themselves checked by the integral identity); same interval; C unchanged. "
+             "Model of Derivate for polynomial curves (difference matrix, removal of full-multiplicity knots, Bezier path with "
+             "clean()) tied by differential execution within 1e-9 (the library computes the quotients in float64).",
+        design="7/C09",
+        technique="Coq proof (exactness of the oracle's quadrature) + correspondence and integral-identity oracle by vm_compute",
+        note="PART: the B-spline derivative formula on the span-local recursion (Proofs/DerivProofs.v) is in progress; until "
+             "then the property rests on the per-case oracle. Floats: the result of Derivate is float even for Fraction input "
+             "(not among the operations C16 requires to be exact), hence the 1e-9 comparison."),
     "C10": dict(
         text="Unbounded theorems (Props/C10.v), for EVERY n: the interpolatory weights the model computes (inverse of the "
              "Bernstein collocation matrix, certified) integrate the whole Bernstein basis and every monomial of degree < n "
